@@ -28,6 +28,18 @@ def _number(x):
     return x.item() if isinstance(x, np.number) else x
 
 
+def _cells(x):
+    """
+    the cells of a datetime64 / timedelta64 array as the pandas Timestamps / Timedeltas they hold. 
+    np.vectorize reads an array through astype(object), which turns datetime64[ns] cells into ints (and datetime64[D] cells into dates)
+    """
+    if x.dtype.kind in 'mM':
+        res = np.empty(x.size, dtype = object)
+        res[:] = [_number(v) for v in x.ravel()]
+        return res.reshape(x.shape)
+    return x
+
+
 def eq(x, y):
     """
     A better nan-handling equality comparison. Here is the problem:
@@ -89,7 +101,7 @@ def eq(x, y):
     elif isinstance(x, (tuple, list)):
         return type(x) == type(y) and len(x) == len(y) and _eq_attrs(x,y,['__shape__']) and (len(x) == 0 or min([eq(i,j) for i,j in zip(x,y)]))
     elif isinstance(x, np.ndarray):
-        return type(x) == type(y) and x.shape == y.shape and (0 in x.shape or np.all(veq(x,y)))
+        return type(x) == type(y) and x.shape == y.shape and (0 in x.shape or np.all(veq(_cells(x), _cells(y))))
     elif isinstance(x, (pd.DataFrame, pd.Series)):
         return type(x)==type(y) and _eq_attrs(x,y, attrs = ['__shape__', 'index', 'columns']) and (0 in x.shape or np.all(veq(x,y)))
     elif isinstance(x, pd.Index):
